@@ -1,133 +1,150 @@
 /-
-  C07 — Sorted sets order members by (score, key): invariants of the node list under Put / Remove
-  and the rank / score queries against it.  (The skiplist search loops for every level layout are in
-  NutsProofs.Props.C07Skiplist.)
+  C07 — Sorted sets order members by (score, key).
+
+  Two layers, both proved for every input:
+
+  * the node list (`Nuts.Model.ZSetA`, what the database model uses): `Put` / `Remove` keep it strictly
+    ordered by (score, key) with distinct keys; the head is the minimum (`Lemmas/ZSetOrder.lean`);
+  * the skiplist itself (`Nuts.Model.Skiplist`: towers, one span per level, every search loop of
+    ds/zset/sortedset.go, the span arithmetic of `insertNode` and `deleteNode`, level growth and shrinking):
+    for every sequence of `Put`, `Remove`, `PopMin`, `PopMax`, every level layout and every level the random
+    generator may draw (1 … 32), the members of the skiplist in level-0 order are exactly the node list after
+    the same operations, each operation returns what the list operation returns, and every stored span of every
+    tower is the distance to the next tower that has that level — the fact the rank queries rest on
+    (`C07_skiplist_refines_sorted_list`; `Lemmas/Skiplist*.lean`).
+
+  The model of the skiplist is tied to the code by suite `zset-ds`: after every operation the levels, spans,
+  forward and backward pointers, tail and length of the real structure are compared with the model's.
 -/
 import Nuts.Model.ZSetA
-import NutsProofs.Lemmas.Bytes
+import NutsProofs.Lemmas.ZSetOrder
+import NutsProofs.Lemmas.SkiplistRefine
 namespace NutsProofs.C07
-open Nuts Nuts.Model Nuts.Model.ZSetA NutsProofs
+open Nuts Nuts.Model Nuts.Model.ZSetA NutsProofs NutsProofs.ZOrd
 
-/-- strict (score, key) order -/
-def Lt (a b : Node) : Prop := a.score < b.score ∨ (a.score = b.score ∧ bcmp a.key b.key = .lt)
+/-! ### the node list -/
 
-theorem nlt_iff (a b : Node) : nlt a b = true ↔ Lt a b := by
-  simp [nlt, Lt, blt]
+/-- **Put** keeps the node list strictly ordered by (score, key) -/
+theorem C07_put_sorted (s : St) (k : Bytes) (sc : Int) (v : Bytes) (h : Sorted s) : Sorted (put s k sc v) :=
+  put_sorted s k sc v h
 
-theorem Lt_trans {a b c : Node} (h1 : Lt a b) (h2 : Lt b c) : Lt a c := by
-  unfold Lt at *
-  rcases h1 with h1 | ⟨h1, k1⟩ <;> rcases h2 with h2 | ⟨h2, k2⟩
-  · left; omega
-  · left; omega
-  · left; omega
-  · right; exact ⟨by omega, bcmp_lt_trans k1 k2⟩
-
-/-- for nodes with different keys the order is total -/
-theorem Lt_total (a b : Node) (hk : a.key ≠ b.key) (h : ¬ Lt a b) : Lt b a := by
-  unfold Lt at *
-  by_cases hs : b.score < a.score
-  · left; exact hs
-  · have he : a.score = b.score := by
-      by_cases hlt : a.score < b.score
-      · exact absurd (Or.inl hlt) h
-      · omega
-    right
-    refine ⟨he.symm, ?_⟩
-    cases hc : bcmp a.key b.key with
-    | lt => exact absurd (Or.inr ⟨he, hc⟩) h
-    | eq => exact absurd ((bcmp_eq_iff _ _).mp hc) hk
-    | gt => exact (bcmp_gt_iff_lt _ _).mp hc
-
-def Sorted (s : St) : Prop := s.Pairwise Lt
-
-theorem mem_insertSorted (s : St) (n x : Node) : x ∈ insertSorted s n ↔ x = n ∨ x ∈ s := by
-  induction s with
-  | nil => simp [insertSorted]
-  | cons y ys ih =>
-    simp only [insertSorted]
-    split
-    · simp
-    · simp only [List.mem_cons, ih]
-      constructor
-      · rintro (h | h | h)
-        · exact Or.inr (Or.inl h)
-        · exact Or.inl h
-        · exact Or.inr (Or.inr h)
-      · rintro (h | h | h)
-        · exact Or.inr (Or.inl h)
-        · exact Or.inl h
-        · exact Or.inr (Or.inr h)
+theorem C07_remove_sorted (s : St) (k : Bytes) (h : Sorted s) : Sorted (remove s k) := remove_sorted s k h
 
 /-- inserting a node whose key is new keeps the list strictly ordered -/
-theorem insertSorted_sorted (s : St) (n : Node) (h : Sorted s) (hk : ∀ x ∈ s, x.key ≠ n.key) :
-    Sorted (insertSorted s n) := by
-  induction s with
-  | nil => simp [insertSorted, Sorted]
-  | cons y ys ih =>
-    unfold Sorted at h ⊢
-    rw [List.pairwise_cons] at h
-    obtain ⟨h1, h2⟩ := h
-    simp only [insertSorted]
-    split
-    · rename_i hlt
-      have hny : Lt n y := (nlt_iff n y).mp hlt
-      rw [List.pairwise_cons]
-      refine ⟨?_, List.pairwise_cons.mpr ⟨h1, h2⟩⟩
-      intro x hx
-      simp at hx
-      rcases hx with hx | hx
-      · subst hx; exact hny
-      · exact Lt_trans hny (h1 x hx)
-    · rename_i hlt
-      have hyn : Lt y n := Lt_total n y (fun e => hk y (by simp) e.symm) (fun c => hlt ((nlt_iff n y).mpr c))
-      rw [List.pairwise_cons]
-      refine ⟨?_, ih h2 (fun x hx => hk x (by simp [hx]))⟩
-      intro x hx
-      rcases (mem_insertSorted ys n x).mp hx with hx | hx
-      · subst hx; exact hyn
-      · exact h1 x hx
+theorem C07_insert_sorted (s : St) (n : Node) (h : Sorted s) (hk : ∀ x ∈ s, x.key ≠ n.key) :
+    Sorted (insertSorted s n) := insertSorted_sorted s n h hk
 
-theorem remove_sorted (s : St) (k : Bytes) (h : Sorted s) : Sorted (remove s k) := by
-  unfold Sorted remove at *
-  exact List.Pairwise.filter _ h
-
-theorem mem_remove (s : St) (k : Bytes) (x : Node) : x ∈ remove s k ↔ x ∈ s ∧ x.key ≠ k := by
-  simp [remove]
-
-/-- **Put** of a new key or of a changed score keeps the node list strictly ordered by (score, key)
-and makes `k` map to `(score, value)`. -/
-theorem put_sorted (s : St) (k : Bytes) (sc : Int) (v : Bytes) (h : Sorted s) : Sorted (put s k sc v) := by
-  unfold put
-  split
-  · rename_i n hn
-    split
-    · -- same score: value updated in place; keys and scores unchanged, so the order is unchanged
-      unfold Sorted at *
-      rw [List.pairwise_map]
-      refine h.imp ?_
-      intro a b hab
-      unfold Lt at *
-      split <;> split <;> simpa using hab
-    · apply insertSorted_sorted _ _ (remove_sorted s k h)
-      intro x hx; exact ((mem_remove s k x).mp hx).2
-  · rename_i hnone
-    apply insertSorted_sorted _ _ h
-    intro x hx hxk
-    have : (find? s k) ≠ none := by
-      unfold find?
-      rw [Ne, List.find?_eq_none]
-      intro hall
-      exact hall x hx (by simpa using hxk)
-    exact this hnone
-
-/-- in a sorted list the minimum is the head and the maximum is the last element -/
-theorem head_is_min (x : Node) (xs : St) (h : Sorted (x :: xs)) : ∀ y ∈ xs, Lt x y := by
-  unfold Sorted at h; exact (List.pairwise_cons.mp h).1
-
-example : Sorted (put (put [] [98] 1 []) [97] 1 []) :=
-  put_sorted _ _ _ _ (put_sorted _ _ _ _ (by simp [Sorted]))
+/-- in a sorted list the minimum is the head -/
+theorem C07_head_is_min (x : Node) (xs : St) (h : Sorted (x :: xs)) : ∀ y ∈ xs, Lt x y := head_is_min x xs h
 
 /-- ties on the score are ordered by key: `a` before `b` at equal scores -/
-example : (put (put [] [98] 1 []) [97] 1 []).map (·.key) = [[97], [98]] := by decide
+theorem C07_witness_ties : (put (put [] [98] 1 []) [97] 1 []).map (·.key) = [[97], [98]] := by decide
+
+/-! ### the skiplist -/
+
+open Nuts.Model.Skiplist NutsProofs.SkipL
+
+/-- the mutating operations of ds/zset that the database issues one member at a time; `lvl` is the level
+`randomLevel()` drew for the node a `Put` creates (ignored when it creates none) -/
+inductive ZOp where
+  | put (k : Bytes) (score : Int) (v : Bytes) (lvl : Nat)
+  | rem (k : Bytes)
+  | popMin
+  | popMax
+
+def stepSL (s : SL) : ZOp → SL
+  | .put k sc v lvl => Skiplist.put s k sc v lvl
+  | .rem k => (Skiplist.remove s k).1
+  | .popMin => (Skiplist.popMin s).1
+  | .popMax => (Skiplist.popMax s).1
+
+def stepZ (z : St) : ZOp → St
+  | .put k sc v _ => ZSetA.put z k sc v
+  | .rem k => ZSetA.remove z k
+  | .popMin => (ZSetA.popMin z).2
+  | .popMax => (ZSetA.popMax z).2
+
+/-- what an operation returns -/
+def outSL (s : SL) : ZOp → Option Node
+  | .put _ _ _ _ => none
+  | .rem k => (Skiplist.remove s k).2
+  | .popMin => (Skiplist.popMin s).2
+  | .popMax => (Skiplist.popMax s).2
+
+def outZ (z : St) : ZOp → Option Node
+  | .put _ _ _ _ => none
+  | .rem k => ZSetA.find? z k
+  | .popMin => (ZSetA.popMin z).1
+  | .popMax => (ZSetA.popMax z).1
+
+/-- `randomLevel()` returns a value between 1 and `SkipListMaxLevel` -/
+def LevelOk : ZOp → Prop
+  | .put _ _ _ lvl => 1 ≤ lvl ∧ lvl ≤ maxLevel
+  | _ => True
+
+theorem step_refines (s : SL) (h : OInv s) (op : ZOp) (hl : LevelOk op) :
+    OInv (stepSL s op) ∧ nodes (stepSL s op) = stepZ (nodes s) op ∧ outSL s op = outZ (nodes s) op := by
+  cases op with
+  | put k sc v lvl =>
+    obtain ⟨a, b⟩ := put_refines h k sc v lvl hl.1 hl.2
+    exact ⟨a, b, rfl⟩
+  | rem k => exact remove_refines h k
+  | popMin => exact popMin_refines h
+  | popMax => exact popMax_refines h
+
+/-- **C07, the skiplist.** For every sequence of `Put`, `Remove`, `PopMin`, `PopMax` from the empty sorted set,
+whatever levels the random generator draws: the members of the skiplist in level-0 order are the node list
+after the same operations (ordered by score then key, keys distinct), the structure is well-formed — header of
+32 levels, `1 ≤ level ≤ 32`, `length` = number of members, every member has between 1 and `level` levels — and
+**every stored span of every tower is the distance to the next tower that has that level** (to the end of the
+list when there is none). -/
+theorem C07_skiplist_refines_sorted_list (ops : List ZOp) (hl : ∀ op ∈ ops, LevelOk op) :
+    nodes (ops.foldl stepSL Skiplist.empty) = ops.foldl stepZ [] ∧
+    Sorted (nodes (ops.foldl stepSL Skiplist.empty)) ∧
+    ((nodes (ops.foldl stepSL Skiplist.empty)).map (·.key)).Nodup ∧
+    Inv (ops.foldl stepSL Skiplist.empty) := by
+  suffices H : ∀ (ops : List ZOp) (s : SL) (z : St), OInv s → nodes s = z → (∀ op ∈ ops, LevelOk op) →
+      OInv (ops.foldl stepSL s) ∧ nodes (ops.foldl stepSL s) = ops.foldl stepZ z by
+    obtain ⟨a, b⟩ := H ops Skiplist.empty [] oinv_empty rfl hl
+    exact ⟨b, a.sorted, a.keys, a.inv⟩
+  intro ops
+  induction ops with
+  | nil => intro s z h e _; exact ⟨h, e⟩
+  | cons op rest ih =>
+    intro s z h e hl
+    obtain ⟨a, b, _⟩ := step_refines s h op (hl op (List.mem_cons_self ..))
+    simp only [List.foldl_cons]
+    exact ih _ _ a (by rw [b, e]) (fun o ho => hl o (List.mem_cons_of_mem _ ho))
+
+/-- … and along the way every operation returns what the list operation returns (the removed node, the
+popped minimum / maximum, `nil` when there is none) -/
+theorem C07_skiplist_results (ops : List ZOp) (hl : ∀ op ∈ ops, LevelOk op) (op : ZOp) (ho : LevelOk op) :
+    outSL (ops.foldl stepSL Skiplist.empty) op = outZ (ops.foldl stepZ []) op := by
+  suffices H : ∀ (ops : List ZOp) (s : SL), OInv s → (∀ op ∈ ops, LevelOk op) → OInv (ops.foldl stepSL s) by
+    have hinv := H ops Skiplist.empty oinv_empty hl
+    rw [← (C07_skiplist_refines_sorted_list ops hl).1]
+    exact (step_refines _ hinv op ho).2.2
+  intro ops
+  induction ops with
+  | nil => intro s h _; exact h
+  | cons o rest ih =>
+    intro s h hl
+    simp only [List.foldl_cons]
+    exact ih _ (step_refines s h o (hl o (List.mem_cons_self ..))).1 (fun o' ho' => hl o' (List.mem_cons_of_mem _ ho'))
+
+/-- the history of the witness below -/
+def wOps : List ZOp := [.put [98] 1 [1] 1, .put [97] 1 [2] 3, .put [99] 0 [3] 2, .put [98] 5 [4] 2, .rem [97], .popMin]
+
+/-- non-vacuity: a history with towers of 1, 3 and 2 levels, a tie on the score, a re-scored member, a removal
+and a pop; the members and the spans the model computes for it (header first) -/
+theorem C07_witness_skiplist :
+    (∀ op ∈ wOps, LevelOk op) ∧
+    (nodes (wOps.foldl stepSL Skiplist.empty)).map (·.key) = [[98]] ∧
+    (nodes ((wOps.take 4).foldl stepSL Skiplist.empty)).map (·.key) = [[99], [97], [98]] ∧
+    (((wOps.take 4).foldl stepSL Skiplist.empty).all.map (·.spans.take 3)) = [[1, 1, 2], [1, 1], [1, 1, 1], [0, 0]] := by
+  refine ⟨?_, by decide +kernel, by decide +kernel, by decide +kernel⟩
+  intro op hop
+  simp only [wOps, List.mem_cons, List.mem_nil_iff, or_false] at hop
+  rcases hop with rfl | rfl | rfl | rfl | rfl | rfl <;> simp [LevelOk, maxLevel]
 
 end NutsProofs.C07
